@@ -9,6 +9,7 @@
 package interp
 
 import (
+	"time"
 	"fmt"
 	"go/token"
 	"go/types"
@@ -73,6 +74,7 @@ type interpreter struct {
 	funcsSeen map[*ssa.Function]bool
 	curFrame  *frame
 	poisoned  []string
+	forceLazy int
 	namedCache map[string]types.Type
 	initGlobals map[*ssa.Package]map[*ssa.Global]bool
 }
@@ -133,10 +135,26 @@ func (i *interpreter) global(g *ssa.Global) *value {
 	if g.Pkg != nil && !i.initAllow[g.Pkg.Pkg.Path()] && i.needsInit(g) {
 		panic(engineFault{"access to global " + g.String() + " whose package initialiser is not executed (add the package to the init whitelist)"})
 	}
+	if g.Pkg != nil && lazyInit[g.Pkg.Pkg.Path()] && !i.initDone[g.Pkg] && i.initAllow[g.Pkg.Pkg.Path()] {
+		// table-only standard packages are initialised on first use of one of their globals
+		if f := g.Pkg.Func("init"); f != nil {
+			i.forceLazy++
+			i.runPkgInit(nil, f)
+			i.forceLazy--
+			if r, ok := i.globals[g]; ok {
+				return r
+			}
+		}
+	}
 	cell := zero(deref(g.Type()))
 	i.globals[g] = &cell
 	return &cell
 }
+
+// lazyInit lists standard packages whose initialiser only fills the package's own tables (no
+// registration in, or dependence on, other packages' state): running it at the first access to
+// one of the package's globals is indistinguishable from running it at program start.
+var lazyInit = map[string]bool{"unicode": true, "strconv": true, "math": true}
 
 // needsInit reports whether the package initialiser refers to g (i.e. g has an initialiser).
 func (i *interpreter) needsInit(g *ssa.Global) bool {
@@ -596,6 +614,9 @@ func (i *interpreter) runPkgInit(caller *frame, fn *ssa.Function) value {
 	if i.initDone[pkg] {
 		return nil
 	}
+	if lazyInit[pkg.Pkg.Path()] && i.forceLazy == 0 {
+		return nil
+	}
 	i.initDone[pkg] = true
 	if !i.initAllow[pkg.Pkg.Path()] {
 		return nil
@@ -610,11 +631,20 @@ func (i *interpreter) runPkgInit(caller *frame, fn *ssa.Function) value {
 		fr.locals[k] = zero(deref(l.Type()))
 		fr.env[l] = &fr.locals[k]
 	}
+	var t0 time.Time
+	if initProf {
+		t0 = time.Now()
+	}
 	for fr.block != nil {
 		runInitFrame(fr)
 	}
+	if initProf {
+		fmt.Fprintf(os.Stderr, "initprof %s %v (nested included)\n", pkg.Pkg.Path(), time.Since(t0))
+	}
 	return nil
 }
+
+var initProf = os.Getenv("GOSYM_INITPROF") != ""
 
 // runInitFrame is runFrame for synthetic package initialisers: a call that
 // the engine cannot execute leaves a poison value instead of failing the run.
@@ -722,7 +752,20 @@ func runFrame(fr *frame) {
 		}
 		r := recover()
 		if !isTargetPanic(r) {
-			panic(r) // engine-level: never visible to the target's defers
+			// engine-level: never visible to the target's defers. Inside a package initialiser the
+			// failed call is replaced by poison and execution goes on, so the frames being abandoned
+			// release what they hold (deferred Unlock etc.), as they would on a panic; recover() in
+			// those deferred calls sees nothing.
+			if fr.i.inInit > 0 && r != nil {
+				for d := fr.defers; d != nil; d = d.tail {
+					func() {
+						defer func() { recover() }()
+						fr.runDefer(d)
+					}()
+				}
+				fr.defers = nil
+			}
+			panic(r)
 		}
 		fr.panicking = true
 		fr.panic = r
